@@ -57,6 +57,8 @@ func symExpr(v ssa.Value, depth int) string {
 		return symExpr(x.X, d) + "[" + symExpr(x.Index, d) + "]"
 	case *ssa.Index:
 		return symExpr(x.X, d) + "[" + symExpr(x.Index, d) + "]"
+	case *ssa.Lookup:
+		return symExpr(x.X, d) + "[" + symExpr(x.Index, d) + "]"
 	case *ssa.Slice:
 		return symExpr(x.X, d) + "[" + symExpr(x.Low, d) + ":" + symExpr(x.High, d) + "]"
 	case *ssa.Convert:
